@@ -69,6 +69,14 @@ def check_code(acc, v):
         return
     if s != txt:
         acc.violation({"clause": "text", "class": cls, "high": high, "named": name not in (None, "None")}, case, f"str(TPM_RC({v:#x})) = {s!r}, the format rules give {txt!r}")
+    # the same code built from typed integers (what the object API and re-wrapping produce)
+    for how, mk in (("UINT32", lambda: T(ns.TYPES["UINT32"](v))), ("TPM_RC", lambda: T(T(v)))):
+        try:
+            y = mk()
+            if str(y) != txt or format(y) != txt or len(list(y.attributes())) != len(list(x.attributes())):
+                acc.violation({"clause": "text-of-typed-construction", "class": cls, "via": how}, case, f"TPM_RC({how}({v:#x})): str = {str(y)!r}, {len(list(y.attributes()))} bit rows; expected {txt!r}, {len(list(x.attributes()))} rows")
+        except Exception as e:  # noqa: BLE001
+            acc.violation({"clause": "typed-construction-raises", "class": cls, "via": how, "exc": type(e).__name__}, case, f"TPM_RC({how}({v:#x})): {type(e).__name__}: {e}")
     if f != txt:
         acc.violation({"clause": "format", "class": cls, "high": high}, case, f"format(TPM_RC({v:#x})) = {f!r}, the format rules give {txt!r}")
     if int(x) != v or x.to_bytes() != v.to_bytes(4, "big"):
